@@ -88,6 +88,20 @@ class TwoFloatToBool(nn.Module):
         return torch.where(m, x, -y).sum()
 
 
+class FloatFeedsOnlyBool(nn.Module):
+    """float-tensor nodes whose ONLY consumer is a non-float node that is cut (two float inputs): they lose every user and must
+    nevertheless stay in the pruned graph (documented removals only)"""
+
+    def __init__(self) -> None:
+        super().__init__()
+        self.l = nn.Linear(6, 6)
+
+    def forward(self, x: torch.Tensor) -> torch.Tensor:
+        h = self.l(x)
+        m = torch.gt(torch.tanh(h), torch.sigmoid(x))
+        return torch.where(m, h, -h).sum()
+
+
 class DynSlice(nn.Module):
     """slices by a shape-derived size; called with two different lengths so that TorchDynamo re-traces with a symbolic
     size: the tracked graph then holds non-float nodes (size placeholder, floordiv) INSIDE slice objects"""
@@ -138,7 +152,8 @@ class Embed(nn.Module):
 MODULES: Dict[str, Tuple[Callable[[], nn.Module], Callable[[], List[torch.Tensor]]]] = {
     "views": (Views, lambda: [torch.randn(6, 6)]), "rotate_half": (RotateHalf, lambda: [torch.randn(4, 6)]),
     "cat_views": (CatViews, lambda: [torch.randn(36)]), "kw_tensors": (KwTensors, lambda: [torch.randn(36)]),
-    "int_index": (IntIndex, lambda: [torch.randn(4, 6)]), "two_float_to_bool": (TwoFloatToBool, lambda: [torch.randn(4, 6)]), "multi_out": (MultiOut, lambda: [torch.randn(4, 6)]),
+    "int_index": (IntIndex, lambda: [torch.randn(4, 6)]), "two_float_to_bool": (TwoFloatToBool, lambda: [torch.randn(4, 6)]),
+    "float_feeds_only_bool": (FloatFeedsOnlyBool, lambda: [torch.randn(4, 6)]), "multi_out": (MultiOut, lambda: [torch.randn(4, 6)]),
     "residual": (Residual, lambda: [torch.randn(36)]), "dyn_slice": (DynSlice, lambda: [[torch.randn(6, 6)], [torch.randn(8, 6)]]), "embed": (Embed, lambda: [torch.randint(0, 9, (5,))]),
 }
 
